@@ -251,4 +251,144 @@ Proof.
       * destruct (IH _ g2 _ _ _ _ _ bp H HR Hp Hnb Hdj Hdb Hds' Hdn Hnames) as [g2' [bp1 [E2 Rest]]].
         exists g2', bp1. split; [exact E2|exact Rest].
 Qed.
+
+(* ---------- le_blocks ---------- *)
+Lemma nonbranch_mapb b : nonbranch b -> nonbranch (mapb b).
+Proof.
+  unfold nonbranch, mapb. cbn. intros Hnb cc v t. destruct (e_kind b) eqn:Ek; try discriminate. exfalso. eapply Hnb; eauto.
+Qed.
+
+Lemma mapb_nonbranch_jt b jt : nonbranch b ->
+  mkE (map rho jt) (e_be (mapb b)) (e_kind (mapb b)) = mapb (mkE jt (e_be b) (e_kind b)).
+Proof. intros _. unfold mapb. cbn. reflexivity. Qed.
+
+Lemma le_blocks_rho (K : name -> Prop) : forall todo (g1 g2 : egraph) names g1' names1,
+  le_blocks c g1 todo names = Ok (g1', names1) ->
+  Rel K g1 g2 ->
+  NoDup todo -> NoDup names ->
+  (forall p, In p todo -> K p /\ exists bp, efind g1 p = Some bp /\ nonbranch bp /\
+                                   (forall y, In y (e_jt bp) -> D y) /\ (forall y, In y (e_be bp) -> D y)) ->
+  (forall a, In a names -> D a /\ rho a = a /\ K a /\ ~ In a todo) ->
+  exists g2', le_blocks mapc g2 todo names = Ok (g2', names1) /\ Rel K g1' g2' /\
+    (forall a, In a names1 -> In a names) /\
+    (forall x, ~ K x -> efind g1' x = efind g1 x /\ efind g2' x = efind g2 x).
+Proof.
+  induction todo as [|p rest IH]; intros g1 g2 names g1' names1 H HR Hnd Hndn Htodo Hnames.
+  - cbn in H. injection H as <- <-. exists g2. cbn. repeat split; auto.
+  - cbn [le_blocks] in H |- *.
+    destruct (Htodo p (or_introl eq_refl)) as [Kp [bp [Hp [Hnb [Hdj Hdb]]]]].
+    rewrite Hp in H. assert (Hp2 : efind g2 p = Some (mapb bp)) by (rewrite (HR p Kp), Hp; reflexivity). rewrite Hp2.
+    destruct (le_targets c g1 p (ejts bp) (ejts bp) names) as [[[g1a jt1] names1a]| |] eqn:Hlt; try discriminate.
+    assert (Hdsnap : forall y, In y (ejts bp) -> D y).
+    { intros y Hy. apply Hdj. unfold ejts in Hy. apply filter_In in Hy. apply Hy. }
+    assert (Hpn : ~ In p names) by (intros Hi; destruct (Hnames p Hi) as [_ [_ [_ Hn]]]; apply Hn; left; reflexivity).
+    destruct (le_targets_rho p K Kp (ejts bp) g1 g2 (ejts bp) names g1a jt1 names1a bp Hlt HR Hp Hnb Hdj Hdb Hdsnap Hdsnap)
+      as [g2a [bp1 [E2 [R2 [P1 [N1 [J1 [B1 [T1 [S1 Fr]]]]]]]]]].
+    { intros a Ha. destruct (Hnames a Ha) as [A [B [C Hn]]]. repeat split; auto. intros ->. contradiction. }
+    rewrite (ejts_rho bp Hdj Hdb). rewrite E2.
+    destruct (dpop g1a p) as [[b0 g1b]|] eqn:Hpop; [|discriminate].
+    assert (Hb0 : b0 = bp1) by (apply dpop_value in Hpop; unfold efind in P1; congruence). subst b0.
+    rewrite (replace_jt_nonbranch bp1 _ N1) in H.
+    assert (Hp2a : efind g2a p = Some (mapb bp1)) by (rewrite (R2 p Kp), P1; reflexivity).
+    destruct (dpop_total g2a p (mapb bp1) Hp2a) as [g2b Hpop2]. rewrite Hpop2.
+    rewrite (replace_jt_nonbranch (mapb bp1) _ (nonbranch_mapb bp1 N1)).
+    rewrite (mapb_nonbranch_jt bp1 jt1 N1).
+    set (b1 := mkE jt1 (e_be bp1) (e_kind bp1)) in *.
+    assert (Hf1 : forall x, efind (dset g1b p b1) x = if Z.eqb x p then Some b1 else efind g1a x).
+    { intros x. unfold efind. rewrite zassoc_dset. destruct (Z.eqb x p) eqn:E; [reflexivity|]. apply Z.eqb_neq in E. eapply zassoc_dpop; eauto. }
+    assert (Hf2 : forall x, efind (dset g2b p (mapb b1)) x = if Z.eqb x p then Some (mapb b1) else efind g2a x).
+    { intros x. unfold efind. rewrite zassoc_dset. destruct (Z.eqb x p) eqn:E; [reflexivity|]. apply Z.eqb_neq in E. eapply zassoc_dpop; eauto. }
+    assert (HR' : Rel K (dset g1b p b1) (dset g2b p (mapb b1))).
+    { intros x Kx. rewrite Hf1, Hf2. destruct (Z.eqb x p); [reflexivity|apply R2; exact Kx]. }
+    (* the remaining processed blocks are as they were *)
+    destruct (le_targets_spec c p (ejts bp) g1 (ejts bp) names g1a jt1 names1a bp Hlt Hp Hnb Hndn Hpn)
+      as [used [bp1' [Hn [_ [_ [_ [Hoth _]]]]]]].
+    apply NoDup_cons_iff in Hnd as [Hpr Hnd'].
+    assert (Hrest : forall q, In q rest -> efind (dset g1b p b1) q = efind g1 q).
+    { intros q Hq. rewrite Hf1. destruct (Z.eqb_spec q p) as [->|Hne]; [contradiction|].
+      apply Hoth; [exact Hne|]. intros Hi. assert (Hqn : In q names) by (rewrite Hn; apply in_or_app; left; exact Hi).
+      destruct (Hnames q Hqn) as [_ [_ [_ Hnq]]]. apply Hnq. right. exact Hq. }
+    assert (Hndn1 : NoDup names1a) by (rewrite Hn in Hndn; apply (nodup_app_r _ _ Hndn)).
+    destruct (IH _ (dset g2b p (mapb b1)) _ _ _ H HR' Hnd' Hndn1) as [g2' [E' [R' [S' Fr']]]].
+    + intros q Hq. destruct (Htodo q (or_intror Hq)) as [Kq [bq [Hbq Rest]]]. split; [exact Kq|]. exists bq.
+      split; [rewrite (Hrest q Hq); exact Hbq|exact Rest].
+    + intros a Ha. destruct (Hnames a (S1 a Ha)) as [A [B [C Hn0]]]. repeat split; auto. intros Hi. apply Hn0. right. exact Hi.
+    + exists g2'. split; [exact E'|]. split; [exact R'|]. split; [intros a Ha; apply S1, S'; exact Ha|].
+      intros x Hx. destruct (Fr' x Hx) as [A B]. destruct (Fr x Hx) as [A0 B0].
+      assert (x <> p) by (intros ->; contradiction).
+      split; [rewrite A, Hf1|rewrite B, Hf2]; destruct (Z.eqb_spec x p); congruence.
+Qed.
 End Rename.
+
+(* ---------- the whole rotation ---------- *)
+Lemma needs_map (rho : name -> name) (l : list name) :
+  match map rho l with _ :: _ :: _ => true | _ => false end = match l with _ :: _ :: _ => true | _ => false end.
+Proof. destruct l as [|a [|b r]]; reflexivity. Qed.
+
+Theorem loop_rotate_rho (rho : name -> name) (D : name -> Prop) :
+  (forall a b, D a -> D b -> rho a = rho b -> a = b) ->
+  forall g1 g2 hd headers exits todo unified header_tbl isback latch sexit ev bv names g1',
+  loop_rotate g1 hd headers exits todo unified header_tbl isback latch sexit ev bv names = Ok g1' ->
+  let K := fun x => In x todo \/ In x names \/ x = latch \/ x = sexit in
+  Rel rho K g1 g2 ->
+  NoDup todo -> NoDup names ->
+  (forall x, In x headers -> rho x = x /\ D x) ->
+  (forall x, In x exits -> D x) ->
+  rho hd = hd -> D hd -> rho latch = latch -> D latch -> rho sexit = sexit -> D sexit ->
+  (forall p, In p todo -> exists bp, efind g1 p = Some bp /\ nonbranch bp /\
+                                     (forall y, In y (e_jt bp) -> D y) /\ (forall y, In y (e_be bp) -> D y)) ->
+  (forall a, In a names -> D a /\ rho a = a /\ ~ In a todo) ->
+  exists g2',
+    loop_rotate g2 hd headers (map rho exits) todo unified header_tbl isback latch sexit ev bv names = Ok g2' /\
+    (forall x, K x -> efind g2' x = option_map (mapb rho) (efind g1' x)) /\
+    (forall x, ~ K x -> efind g1' x = efind g1 x /\ efind g2' x = efind g2 x).
+Proof.
+  intros Hinj g1 g2 hd headers exits todo unified header_tbl isback latch sexit ev bv names g1' H K HR Hnd Hndn
+         Hhead Hex Fhd Dhd Flatch Dlatch Fsexit Dsexit Htodo Hnames.
+  unfold loop_rotate in H |- *. rewrite needs_map.
+  set (needs := match exits with _ :: _ :: _ => true | _ => false end) in *.
+  assert (Hxt : (if needs then Some sexit else hd_error (map rho exits)) =
+                option_map rho (if needs then Some sexit else hd_error exits)).
+  { destruct needs; [cbn; rewrite Fsexit; reflexivity|]. destruct exits; reflexivity. }
+  rewrite Hxt.
+  destruct (if needs then Some sexit else hd_error exits) as [xt|] eqn:Ext; [|discriminate]. cbn [option_map].
+  assert (Dxt : D xt).
+  { destruct needs; [injection Ext as <-; exact Dsexit|]. destruct exits as [|x r]; [discriminate|]. injection Ext as <-.
+    apply Hex. left; reflexivity. }
+  set (c := mkL headers exits needs unified ev bv latch hd xt (enumerate exits) [(0, hd); (1, xt)] header_tbl isback) in *.
+  assert (Hc2 : mkL headers (map rho exits) needs unified ev bv latch hd (rho xt) (enumerate (map rho exits))
+                    [(0, hd); (1, rho xt)] header_tbl isback = mapc rho c).
+  { unfold mapc, c. cbn. rewrite enumerate_rho. unfold map_snd. cbn. rewrite Fhd. reflexivity. }
+  rewrite Hc2.
+  destruct (le_blocks c g1 todo names) as [[g1b rest]| |] eqn:Hb; try discriminate.
+  destruct (le_blocks_rho rho D Hinj c) with (K := K) (todo := todo) (g1 := g1) (g2 := g2) (names := names) (g1' := g1b) (names1 := rest)
+    as [g2b [E2 [R2 [_ Fr]]]]; auto.
+  - intros x Hx. apply (Hhead x Hx).
+  - intros x Hx. apply (Hhead x Hx).
+  - intros p Hp. cbn [c l_exit_tbl] in Hp. apply in_enumerate in Hp. apply Hex. exact Hp.
+  - intros p Hp. cbn [c l_back_tbl] in Hp. destruct Hp as [<-|[<-|[]]]; cbn; assumption.
+  - intros p Hp. split; [left; exact Hp|]. apply Htodo. exact Hp.
+  - intros a Ha. destruct (Hnames a Ha) as [A [B C]]. repeat split; auto. right. left. exact Ha.
+  - rewrite E2. injection H as <-.
+    set (LB := mkE [xt; hd] [hd] (EBranch C_LATCH bv [(0, hd); (1, xt)])).
+    set (SX := mkE exits [] (EBranch C_EXITBRANCH ev (enumerate exits))).
+    assert (HLB : mkE [rho xt; hd] [hd] (EBranch C_LATCH bv [(0, hd); (1, rho xt)]) = mapb rho LB).
+    { unfold mapb, LB, map_snd. cbn. rewrite Fhd. reflexivity. }
+    assert (HSX : mkE (map rho exits) [] (EBranch C_EXITBRANCH ev (enumerate (map rho exits))) = mapb rho SX).
+    { unfold mapb, SX. cbn. rewrite enumerate_rho. reflexivity. }
+    rewrite HLB, HSX.
+    eexists. split; [reflexivity|].
+    assert (Hf : forall (ga : egraph) (lb sx : eblk) x,
+               efind (if needs then dset (dset ga latch lb) sexit sx else dset ga latch lb) x =
+               if needs && Z.eqb x sexit then Some sx else if Z.eqb x latch then Some lb else efind ga x).
+    { intros ga lb sx x. destruct needs; cbn [andb]; unfold efind; rewrite ?zassoc_dset; [|reflexivity].
+      destruct (Z.eqb x sexit); reflexivity. }
+    split.
+    + intros x Kx. rewrite !Hf. destruct (needs && Z.eqb x sexit); [reflexivity|].
+      destruct (Z.eqb x latch); [reflexivity|]. apply R2. exact Kx.
+    + intros x Hx. rewrite !Hf.
+      assert (x <> latch) by (intros ->; apply Hx; right; right; left; reflexivity).
+      assert (x <> sexit) by (intros ->; apply Hx; right; right; right; reflexivity).
+      destruct (Z.eqb_spec x sexit); [contradiction|]. rewrite andb_false_r.
+      destruct (Z.eqb_spec x latch); [contradiction|]. apply Fr. exact Hx.
+Qed.
